@@ -1,16 +1,38 @@
 #!/bin/sh
-# Regenerates coq/_CoqProject and coq/Makefile from the .v files present (Extract files are
-# compiled separately by the checks, into build/).
+# scripts/coqproject.sh [prop]
+# Regenerates coq/_CoqProject[.prop] and coq/Makefile[.prop] from the .v files present.
+# With a property directory name (e.g. c13) the project holds coq/lib, coq/<prop> and every other
+# property directory that <prop>'s files import (From V.<dir> Require ...), so that independent
+# properties can be built concurrently without sharing a Makefile or dependency file.
+# *Extract.v files are compiled separately by the checks, into build/.
 set -e
 cd "$(dirname "$0")/../coq"
+prop="$1"
+if [ -z "$prop" ]; then
+  suffix=""
+  dirs="."
+else
+  suffix=".$prop"
+  dirs="lib $prop"
+  # transitive closure of imported property directories
+  changed=1
+  while [ $changed = 1 ]; do
+    changed=0
+    for d in $dirs; do
+      for i in $(grep -ho 'From V\.[A-Za-z0-9_]*' "$d"/*.v 2>/dev/null | sed 's/From V\.//' | sort -u); do
+        case " $dirs " in *" $i "*) ;; *) if [ -d "$i" ]; then dirs="$dirs $i"; changed=1; fi;; esac
+      done
+    done
+  done
+fi
 {
   echo "-Q . V"
   echo "-arg -w -arg -notation-overridden,-deprecated-hint-without-locality,-deprecated-instance-without-locality"
-  find . -name '*.v' ! -name '*Extract.v' ! -name 'cases*.v' | sed 's|^\./||' | LC_ALL=C sort
-} > _CoqProject.new
-if ! cmp -s _CoqProject.new _CoqProject 2>/dev/null || [ ! -f Makefile ]; then
-  mv _CoqProject.new _CoqProject
-  coq_makefile -f _CoqProject -o Makefile >/dev/null
+  find $dirs -name '*.v' ! -name '*Extract.v' ! -name 'cases*.v' | sed 's|^\./||' | LC_ALL=C sort
+} > "_CoqProject$suffix.new.$$"
+if ! cmp -s "_CoqProject$suffix.new.$$" "_CoqProject$suffix" 2>/dev/null || [ ! -f "Makefile$suffix" ]; then
+  mv "_CoqProject$suffix.new.$$" "_CoqProject$suffix"
+  coq_makefile -f "_CoqProject$suffix" -o "Makefile$suffix" >/dev/null
 else
-  rm -f _CoqProject.new
+  rm -f "_CoqProject$suffix.new.$$"
 fi
